@@ -11,17 +11,31 @@ variable {D : Type}
 def baseChar (b : Base) : Char := match b.val with | 0 => 'A' | 1 => 'C' | 2 => 'G' | _ => 'T'
 def seqStr (s : Seq) : String := String.ofList (s.map baseChar)
 
+/-- an `L` record: leaving node `src` through its right (`plus = true`) or left side, arriving at side `toSide` of `dst` -/
+structure GfaLink where
+  src : Nat
+  plus : Bool
+  dst : Nat
+  toSide : Dir
+deriving Repr, DecidableEq
+
+/-- the `L` records written for node `id`: left edges to nodes with `target ≥ id`, right edges with `target > id` or a
+    right-side hairpin (`target = id` arriving on the right side) -/
+def nodeLinks (g : G D) (id : Nat) : Option (List GfaLink) :=
+  match findEdges g id .L, findEdges g id .R with
+  | some le, some re =>
+    some ((le.filter fun e => decide (e.1 ≥ id)).map (fun e => ⟨id, false, e.1, e.2.1⟩) ++
+          (re.filter fun e => decide (e.1 > id ∨ (e.1 = id ∧ e.2.1 = .R))).map (fun e => ⟨id, true, e.1, e.2.1⟩))
+  | _, _ => none
+
+def renderLink (K : Nat) (l : GfaLink) : String :=
+  s!"L\t{l.src}\t{if l.plus then "+" else "-"}\t{l.dst}\t{match l.toSide with | .L => "+" | .R => "-"}\t{K - 1}M\n"
+
 /-- `node_to_gfa` without tags -/
 def nodeToGfa (g : G D) (id : Nat) : Option String :=
-  match g.nodes[id]?, findEdges g id .L, findEdges g id .R with
-  | some nd, some le, some re =>
-    let sLine := s!"S\t{id}\t{seqStr nd.seq}\n"
-    let sign := fun (d : Dir) => match d with | .L => "+" | .R => "-"
-    let ls := le.filterMap fun (t, d, _) => if t ≥ id then some s!"L\t{id}\t-\t{t}\t{sign d}\t{g.K - 1}M\n" else none
-    let rs := re.filterMap fun (t, d, _) =>
-      if t > id ∨ (t = id ∧ d = .R) then some s!"L\t{id}\t+\t{t}\t{sign d}\t{g.K - 1}M\n" else none
-    some (sLine ++ String.join ls ++ String.join rs)
-  | _, _, _ => none
+  match g.nodes[id]?, nodeLinks g id with
+  | some nd, some ls => some (s!"S\t{id}\t{seqStr nd.seq}\n" ++ String.join (ls.map (renderLink g.K)))
+  | _, _ => none
 
 /-- `write_gfa` -/
 def writeGfa (g : G D) : Option String :=
